@@ -5,6 +5,7 @@ CONSTANTS
  R = 2
  MaxTime = 4
  MaxCalls = 5
+ WriteInLock = TRUE
  Recheck = TRUE
 INVARIANT FetchOnce
 INVARIANT ReturnsFresh
